@@ -583,19 +583,19 @@ func (x *batchExec) build() flyt.Node {
 		}
 	}
 	if !bit(0) {
-		b.WithMaxRetries(sc.budget())
+		b = b.WithMaxRetries(sc.budget())
 	}
 	if !bit(1) {
-		b.WithWait(sc.wait())
+		b = b.WithWait(sc.wait())
 	}
 	if !bit(2) {
-		b.WithBatchConcurrency(sc.C)
+		b = b.WithBatchConcurrency(sc.C)
 	}
 	if !bit(3) && sc.Mode != 0 {
-		b.WithBatchErrorHandling(sc.Mode == 1)
+		b = b.WithBatchErrorHandling(sc.Mode == 1)
 	}
 	if sc.PrepForm == PFResults {
-		b.WithPrepFunc(func(ctx context.Context, s *flyt.SharedStore) ([]flyt.Result, error) {
+		b = b.WithPrepFunc(func(ctx context.Context, s *flyt.SharedStore) ([]flyt.Result, error) {
 			v, err := x.prepCb(ctx, s)
 			if err != nil {
 				return nil, err
@@ -604,13 +604,13 @@ func (x *batchExec) build() flyt.Node {
 		})
 	}
 	if sc.ExecAny {
-		b.WithExecFuncAny(func(ctx context.Context, p any) (any, error) {
+		b = b.WithExecFuncAny(func(ctx context.Context, p any) (any, error) {
 			// Any style: rebuild the Result view for decoding (error items arrive as nil)
 			ret, err, _ := x.execCb(ctx, flyt.NewResult(p))
 			return ret, err
 		})
 	} else {
-		b.WithExecFunc(func(ctx context.Context, r flyt.Result) (flyt.Result, error) {
+		b = b.WithExecFunc(func(ctx context.Context, r flyt.Result) (flyt.Result, error) {
 			ret, err, resErr := x.execCb(ctx, r)
 			if err != nil {
 				if sc.ErrBoth {
@@ -625,7 +625,7 @@ func (x *batchExec) build() flyt.Node {
 		})
 	}
 	if !sc.NoPost {
-		b.WithPostFunc(x.postCb)
+		b = b.WithPostFunc(x.postCb)
 	}
 	x.builder = b
 	if bit(4) {
@@ -643,10 +643,11 @@ func (x *batchExec) build() flyt.Node {
 // configuration must be read at run time, not cached from an earlier run.
 func (x *batchExec) reconfigure(next *BatchSc) {
 	b := x.builder
-	b.WithMaxRetries(next.budget())
-	b.WithWait(next.wait())
-	b.WithBatchConcurrency(next.C)
-	b.WithBatchErrorHandling(next.Mode != 2)
+	b = b.WithMaxRetries(next.budget())
+	b = b.WithWait(next.wait())
+	b = b.WithBatchConcurrency(next.C)
+	b = b.WithBatchErrorHandling(next.Mode != 2)
+	x.builder = b
 	n := next.n()
 	x.mu.Lock()
 	x.sc = next
